@@ -3,7 +3,8 @@
 
 Executable, import-free mirror of `pysyncobj/transport.py` (`TCPTransport`) together with the connection-state
 part of `pysyncobj/tcp_connection.py` (`TcpConnection.connect / disconnect / __processConnection / send`) and
-`TcpServer.__onNewConnection`, *after* the repairs `fixes/D51`, `fixes/D52`, `fixes/D53`.
+`TcpServer.__onNewConnection`, *after* the repairs `fixes/D51`, `fixes/D52`, `fixes/D53` and D77 (a first message that is neither a member's address, nor
+`'readonly'`, nor a well-formed known utility command closes the connection instead of raising out of the poll loop).
 
 What the kernel / the network does is an event alphabet (`Event`), not derived: a poll event on a socket with or
 without error, with or without complete messages; the outcome of a non-blocking `connect()` (in progress /
@@ -64,7 +65,7 @@ inductive Out where
   | roDisc (n : NodeId)
   | deliver (n : NodeId) (m : Msg)  -- `_onMessageReceived(node, message)`
   | utility                         -- a utility callback was invoked
-  | raised                          -- an exception escapes the event (TypeError on an unhashable first message,
+  | raised                          -- an exception escapes the event (before D77: TypeError on an unhashable first message;
                                     -- AssertionError in `_connectIfNecessarySingle`)
   | sendResult (b : Bool)
   deriving DecidableEq, Repr, Inhabited
@@ -257,8 +258,8 @@ def St.onIncomingMessage (s : St) (c : Nat) (m : Msg) : St × Bool :=
     if known then
       let s := s.emit .utility
       (if replyFail then s.connDisconnect c none false else s, false)
-    else (s.emit .raised, true)                            -- `message in self._nodeAddrToNode` on a list
-  | .unhashable _ => (s.emit .raised, true)
+    else (s.hsReject c, false)             -- D77: a list that is no known utility command names nobody: closed
+  | .unhashable _ => (s.hsReject c, false) -- D77: an unhashable value cannot be a node id: closed (was: TypeError)
   | .addr a => if a ∈ s.nodes then (s.hsRegister c (.tcp a) false, false) else (s.hsReject c, false)
   | .hashable _ => (s.hsReject c, false)
   | .readonly =>
